@@ -15,6 +15,26 @@ def rxTrace (A : Aead) : Rx → List Bytes → List Json
              else Json.mkObj [("out", jhex o)]
     j :: rxTrace A r1 cs
 
+/-- rxp: reads interleaved with changes of the "delayed response pending" flag; one answer per READ -/
+def rxpTrace (A : Aead) : PConn → List Ev → List Json
+  | _, [] => []
+  | c, e :: es =>
+    let (c1, o) := c.step A e
+    match o with
+    | none => rxpTrace A c1 es
+    | some out =>
+      let j := if c1.rx.closed && !c.rx.closed then Json.mkObj [("err", "InvalidTag")]
+               else if c.rx.closed then Json.mkObj [("closed", true)]
+               else Json.mkObj [("out", jhex out)]
+      j :: rxpTrace A c1 es
+
+def evOf (j : Json) : R Ev :=
+  match getHex j "read" with
+  | .ok d => pure (.read d)
+  | .error _ => do
+    let b ← getBool j "pending"
+    pure (.pending b)
+
 def jout : Out → Json
   | .plain d => Json.mkObj [("plain", jhex d)]
   | .frames k c blks bytes =>
@@ -40,6 +60,13 @@ def handle (j : Json) : R Json := do
     let fin := (Rx.run A {} reads).1
     pure (Json.mkObj [("reads", Json.arr tr.toArray), ("cnt", fin.cnt), ("buffered", fin.buf.length),
       ("closed", fin.closed)])
+  | "rxp" =>
+    let key ← getNat j "key"
+    let evs ← (← getArr j "events").toList.mapM evOf
+    let A := mockAead key
+    let fin := PConn.run A {} evs
+    pure (Json.mkObj [("reads", Json.arr (rxpTrace A {} evs).toArray), ("cnt", fin.rx.cnt),
+      ("buffered", fin.rx.buf.length), ("closed", fin.rx.closed), ("pending", fin.pending)])
   | "tx" =>
     -- keys[i] = mock key id of the i-th installed out-cipher
     let keys ← (← getArr j "keys").toList.mapM asNat
@@ -80,7 +107,12 @@ def handle (j : Json) : R Json := do
       ("closed", Json.arr closed.toArray)])
   | "pack" =>
     -- byte-level packing: nonces for the given counters, length prefixes for the given lengths
-    let ns ← (← getArr j "counters").toList.mapM asNat
+    -- counters either listed, or the run `from, from+1, …` of `count` frame numbers (long sessions)
+    let ns ← match getNat j "count" with
+      | .ok cnt => do
+        let start ← getNat j "from"
+        pure ((List.range cnt).map (· + start))
+      | .error _ => do (← getArr j "counters").toList.mapM asNat
     let ls ← (← getArr j "lengths").toList.mapM asNat
     let opt (o : Option Bytes) : Json := match o with | some b => jhex b | none => Json.str "struct.error"
     pure (Json.mkObj [("nonces", Json.arr ((ns.map (fun n => opt (packNonce n))).toArray)),
